@@ -4,10 +4,11 @@
 # /verif), runs the registered quick check of the property it breaks against that tree
 # (VERIF_REPO), records verdict + how the counterexample was confirmed, and resets the worktree.
 # Writes /verif/seeded/<seed>/detect.json.  /repo itself is never touched.
-WT=/tmp/matrix-wt
+V=$(cd "$(dirname "$0")/.."; pwd)
+WT=/tmp/matrix-wt-$$
 git -C /repo worktree remove --force $WT >/dev/null 2>&1
 git -C /repo worktree add --detach $WT HEAD -q || exit 1
-cd /verif
+cd $V
 seeds="$@"; [ -z "$seeds" ] && seeds=$(ls seeded | grep -v MATRIX)
 for s in $seeds; do
   d=seeded/$s; [ -d $d ] || continue
@@ -15,8 +16,8 @@ for s in $seeds; do
   [ -z "$prop" ] && prop=${s%%-*}
   P=$d/patch.diff; [ -f $d/patch_head.diff ] && P=$d/patch_head.diff
   git -C $WT reset -q --hard HEAD; git -C $WT clean -fdq
-  if ! git -C $WT apply /verif/$P 2>/dev/null; then
-    if ! git -C $WT apply -3 /verif/$P 2>/dev/null; then
+  if ! git -C $WT apply $V/$P 2>/dev/null; then
+    if ! git -C $WT apply -3 $V/$P 2>/dev/null; then
       git -C $WT reset -q --hard HEAD
       echo "{\"seed\":\"$s\",\"property\":\"$prop\",\"applies_to_head\":false}" > $d/detect.json
       echo "$s $prop does-not-apply"; continue
